@@ -557,6 +557,7 @@ CHECKS = {
         }, {
             "pkg": BS, "funcs": ["VerifC12Heads"],
             "params": {"quick": {"H": 1}, "thorough": {"H": 2}},
+            "max_paths": {"quick": 60000, "thorough": 400000},
             "covers": {"VerifC12Heads": ["malformed-handled", "burst", "valid-sent"]},
         }, {
             "pkg": ODB, "funcs": ["VerifSysMalformed"],
